@@ -28,6 +28,7 @@ import (
 	vdebug "runtime/debug"
 	vstrconv "strconv"
 	vsyscall "syscall"
+	vnet "net"
 	vtime "time"
 	vunsafe "unsafe"
 )
@@ -136,6 +137,9 @@ func vObserve(label string, v uint64) { vfmt.Printf("VERIF-OBS %%s=%%d\n", label
 func vInsertionSort(n int, less func(i, j int) bool, swap func(i, j int)) {}
 
 func vNative() bool { return true }
+
+// only read by the engine's dialer model; natively the real dialer runs
+var vDialFn func(address string) (vnet.Conn, error)
 
 // natively the other goroutines get 150 ms (generous: replays may share the machine with 11 other jobs)
 func vSettle() { vtime.Sleep(150 * vtime.Millisecond) }
